@@ -370,7 +370,7 @@ def run_check(pid, tier):
     classes_info = []
     for tu in spec["tus"]:
         for part in P.TUS[tu]["parts"]:
-            fam = P.PART_FAMILY[part]
+            fam = P.TUS[tu].get("family") or P.PART_FAMILY[part]
             groups = class_groups(cfgs, fam)
             for rep, members in groups:
                 xf = []
